@@ -2,6 +2,7 @@ import ParryModel.Proto
 import ParryModel.C19.Model
 import ParryModel.C19.DriverTopo
 import ParryModel.C19.DriverExt
+import ParryModel.C19.DriverAcc
 import Std.Data.HashMap
 /-! C19 protocol handlers. -/
 namespace C19
@@ -353,6 +354,8 @@ def handler (fn : String) : Option Handler :=
         | none, _ => "skip bad-args" }
   | _ => match TopoDriver.handler fn with
     | some h => some h
-    | none => Ext.handler fn
+    | none => match Ext.handler fn with
+      | some h => some h
+      | none => Acc.handler fn
 
 end C19
